@@ -47,10 +47,9 @@ def run(ctx, replay=None):
               dict(shape="chain", max_env=3, env="ConfigEnv"),
               dict(shape="chain", max_env=3, env="ProfileEnv", flagsets="NoAllFlagSets"),
               dict(shape="star", max_env=3, env="SwitchEnv", flagsets="DefaultAndMissing"),
-              dict(shape="deep", max_env=2),
+              dict(shape="deep", max_env=2, flagsets="DefaultAndMissing"),        # measured: 335,630 distinct states, 87 s
               dict(shape="inherit", max_env=2, flagsets="DefaultAndMissing", env="SwitchEnv"),
               dict(shape="inherit", max_env=2, flagsets="ExpiryFlagSets", env="WideEnv"),
-              dict(shape="deep", max_env=2, flagsets="DefaultAndMissing", env="IssuerEnv", alt="DeepAlt"),
               dict(shape="deep", max_env=0, flagsets="AllFlagSets", env="EverythingEnv", alt="DeepAlt", simulate="num=2000,depth=100"),
               dict(shape="chain", max_env=0, flagsets="AllFlagSets", env="EverythingEnv", simulate="num=4000,depth=100"),
               dict(shape="star", max_env=0, flagsets="AllFlagSets", env="EverythingEnv", simulate="num=2000,depth=100")]
